@@ -134,14 +134,17 @@ Section Wait.
              end
     end.
 
+  (* (ret_list, uids) after the argument handling at the top of wait_tasks *)
+  Definition sel_tasks (tab : table) (u : uidsel) : bool * list Z :=
+    match u with
+    | UAll | UMany [] => (true, map fst tab)       (* if not uids: all *)
+    | UOne x => (false, [x])
+    | UMany l => (true, l)
+    end.
+
   Definition wait_tasks (r : req) (T term : option nat) (fuel : nat)
     (tab : table) (u : uidsel) : res :=
-    let '(ret_list, uids) :=
-      match u with
-      | UAll | UMany [] => (true, map fst tab)       (* if not uids: all *)
-      | UOne x => (false, [x])
-      | UMany l => (true, l)
-      end in
+    let '(ret_list, uids) := sel_tasks tab u in
     match check_val (norm r) with
     | None => Raised OtherError
     | Some v =>
@@ -174,15 +177,17 @@ Section Wait.
                end
     end.
 
+  Definition sel_pilots (tab : table) (u : uidsel) : bool * list Z :=
+    match u with
+    | UAll | UMany [] =>                            (* all pilots not yet final *)
+        (true, map fst (filter (fun e => negb (is_final (at_ (snd e) 0))) tab))
+    | UOne x => (false, [x])
+    | UMany l => (true, l)
+    end.
+
   Definition wait_pilots (r : req) (T term : option nat) (fuel : nat)
     (tab : table) (u : uidsel) : res :=
-    let '(ret_list, uids) :=
-      match u with
-      | UAll | UMany [] =>                            (* all pilots not yet final *)
-          (true, map fst (filter (fun e => negb (is_final (at_ (snd e) 0))) tab))
-      | UOne x => (false, [x])
-      | UMany l => (true, l)
-      end in
+    let '(ret_list, uids) := sel_pilots tab u in
     match find_all tab uids with
     | None => Raised ValueError
     | Some chk =>
